@@ -228,8 +228,29 @@ def check(F, rep):
     problems = []
     char_consts = set()
 
+    loop_cache = {}
+
+    def loops_of(fr):
+        """all-quantifier loops over the challenge's bytes in a helper"""
+        if id(fr) in loop_cache:
+            return loop_cache[id(fr)]
+        rdu = defuse(fr)
+
+        def iter_ok(t):
+            l = op_base(t["args"][0])
+            if not rdu.derives_from_call(l, regex=r"HeaderValue::as_bytes$|HeaderValue::as_ref$"):
+                return False
+            return all(is_challenge(fr, ct["args"][0]) for cb, ct in rdu.origin_calls(l) if call_matches(ct, r"HeaderValue::as_bytes$|HeaderValue::as_ref$"))
+
+        def pred_ok(a):
+            return a.kind == "call" and a.term is not None
+        res = booltab.all_loop(fr, iter_ok, pred_ok) if fr is not f else {}
+        loop_cache[id(fr)] = res
+        return res
+
     def handler_value(fr, length, present, allchars, to_str_ok, target=None, depth=0):
-        paths = booltab.extract(fr, target=target)
+        la = loops_of(fr) if target is None else {}
+        paths = booltab.extract(fr, target=target, loop_atoms=la or None)
 
         def value_of(a):
             if a.kind == "switch":
@@ -250,6 +271,27 @@ def check(F, rep):
                     want = 0 if to_str_ok else 1
                     return want if want in vals else "otherwise"
                 raise Unsupported("branch at bb%d on %s" % (a.bb, sorted(map(str, s))))
+            if a.kind == "call" and a.name == "loop-all":
+                # the summarised loop: its element predicate is the character predicate
+                pa = a.args[0]
+                callee = pa.term.get("resolved") or pa.term["callee"]
+                try:
+                    pred = F.fn(norm(callee))
+                except KeyError:
+                    raise Unsupported("element predicate %s of the loop at bb%d is not a workspace function" % (callee, a.bb))
+                rep.fn(pred)
+                # the argument must be the loop's element (possibly `*b as char`)
+                cs = consts_in(F, pred)
+                char_consts.update(cs)
+                bad = []
+                for lo, hi in char_cells(cs):
+                    got = char_pred_value(F, rep, pred, _char_subject, lo)
+                    want = any(x <= lo <= y for x, y in ALLOWED)
+                    if got != want:
+                        bad.append("U+%04X..U+%04X %s" % (lo, hi, "accepted" if got else "rejected"))
+                if bad and ("chars", tuple(bad)) not in problems:
+                    problems.append(("chars", tuple(bad)))
+                return allchars
             if a.kind == "call":
                 nm = a.name
                 if re.search(r"HeaderValue::is_empty$", nm) and is_challenge(fr, a.args[0]):
@@ -370,9 +412,9 @@ def _closure_of(F, fr, o):
     """the closure / fn item passed as operand `o`"""
     l = op_base(o)
     if l is None:
-        if o["k"] == "const" and o.get("def"):
+        if o["k"] == "const" and (o.get("fn") or o.get("def")):
             try:
-                return F.fn(norm(o["def"]))
+                return F.fn(norm(o.get("fn") or o.get("def")))
             except KeyError:
                 return None
         return None
